@@ -30,8 +30,19 @@ func evNewInterp(mainVCL string, scope icontext.Scope) (*interpreter.Interpreter
 	return ip, nil
 }
 
+// statements of a subroutine body (parsed as `sub p { <src> }` by ParseVCL: ParseSnippetVCL does not
+// know the switch statement)
 func evParseSnippet(src string) ([]ast.Statement, error) {
-	return parser.New(lexer.NewFromString(src)).ParseSnippetVCL()
+	vcl, err := parser.New(lexer.NewFromString("sub p {\n" + src + "\n}")).ParseVCL()
+	if err != nil {
+		return nil, err
+	}
+	for _, st := range vcl.Statements {
+		if sub, ok := st.(*ast.SubroutineDeclaration); ok {
+			return sub.Block.Statements, nil
+		}
+	}
+	return nil, fmt.Errorf("no subroutine parsed")
 }
 
 func evRun(ip *interpreter.Interpreter, stmts []ast.Statement) error {
